@@ -83,6 +83,29 @@ CHECKS = {
              "protected header is spelled 8 different ways in 3 serializations with b64 on/off, and the RFC 7520/7797 published tokens verify and are "
              "recomputed exactly where deterministic.",
         note="Trusted: pyca/cryptography primitives, TLC's evaluation of Wire.tla, the reading of the RFCs embodied in Wire.tla."),
+    "C02": dict(
+        cat="model_checking", ref="DESIGN.md section 6 (C02)",
+        technique="TLA+ Dolev-Yao model of JWE decryption (Jwe.tla, ideal AEAD over the received header octets): TLC explores <=2 attacker edits x keys x any-recipient opt-in per key-management shape; behaviours concretised per alg/enc with refimpl tokens and replayed into joserfc",
+        text="Jwe.tla models two honest tokens, an attacker editing protected header octets (incl. re-spelling), AAD, IV, ciphertext, tag, encrypted keys, "
+             "per-recipient epk/headers and the recipient list, and a decryptor shaped like rfc7516/message.py (IV size, per-recipient CEK recovery with errors "
+             "swallowed only when opted out, CEK-set rules, AEAD). TLC checks AuthPlain for four key-management shapes (~94k behaviours), refutes five deviations, "
+             "and exports the intended verdicts. Each behaviour is executed for all 21 algorithms (rotating encs; thorough: all pairs, every bit of every segment).",
+        note="Trusted: ideal AEAD/key wrap in the model, TLC, refimpl. A reject where the model accepts is drift."),
+    "C04": dict(
+        cat="model_checking", ref="DESIGN.md section 6 (C04)",
+        technique="TLA+ JweRoundTrip spec (Encrypt/Decrypt incl. forbidden combinations) model-checked by TLC; every scenario replayed on joserfc with pool keys over six curves",
+        text="JweRoundTrip.tla enumerates 21 alg x 8 enc x zip x serialization x AAD x apu/apv x plaintext class x header placement and ten recipient mixes; "
+             "TLC checks RoundTripOrRefused and NothingEmitted (four deviations refuted). The 26.5k scenarios are executed on the library: plaintext and header "
+             "members must come back in their positions for every recipient alone and through a key set; direct modes with several recipients and ECDH-1PU key "
+             "wrapping with a non-CBC enc must raise the conflict / invalid-encryption-algorithm error at encryption time.",
+        note="Trusted: TLC, seeded plaintext generators. Quick tier runs all mixes and a seeded fifth of the single-recipient scenarios."),
+    "C08": dict(
+        cat="translation_validation", ref="DESIGN.md section 6 (C08), 4.3",
+        technique="Wire.tla JWE layouts evaluated by TLC and compared with refimpl (translation validation), then bidirectional interop joserfc<->refimpl over the JweRoundTrip scenario space, header spellings and RFC 7520 / ECDH-1PU vectors",
+        text="AAD, AL, CBC-HMAC key split and tag truncation, Concat-KDF OtherInfo and round input, PBES2 salt and compact assembly are TLA+ operators; refimpl must "
+             "match TLC's octets on every run, then decrypts every joserfc-produced JWE of the scenario space, and joserfc decrypts refimpl-produced JWEs for "
+             "every alg x enc with zip, AAD, apu/apv, 1..3 recipients, three serializations and re-spelled protected headers; published vectors decrypt in both.",
+        note="Trusted: primitives, TLC's evaluation of Wire.tla, the reading of the RFCs embodied in Wire.tla."),
 }
 
 NOT_YET = {}
